@@ -94,6 +94,24 @@ VectorCases ==
   \/ \E op \in {"AppendScalar", "AppendVector"}, n \in D, k \in D :
         c = C(op, <<n, k>>, <<>>, <<>>, "ok", <<n + k>>)
 
+(* Aliasing through a DIFFERENT vector object: MdotV / VdotM are documented *)
+(* to need "different vectors" for result and argument ("result and        *)
+(* argument must be different vectors").  The argument is the receiver     *)
+(* itself (Self) or another vector object over the same elements           *)
+(* (r.Slice(0, n), r.ConstSlice(0, n)).  Such a call must be rejected or   *)
+(* compute the product of the operands as they were before the call        *)
+(* ("any" + val) - never return something else.  Operand values as the     *)
+(* driver fills them: r[i] = i + 1, A[i][j] = 10 + i n + j + 1 (0-based).  *)
+RECURSIVE SumTo(_, _)
+SumTo(f, k) == IF k = 0 THEN 0 ELSE f[k] + SumTo(f, k - 1)
+AliasA(n, i, j) == 10 + (i - 1) * n + (j - 1) + 1                  \* 1-based i, j
+MdotVAlias(n) == [i \in 1..n |-> SumTo([j \in 1..n |-> AliasA(n, i, j) * j], n)]
+VdotMAlias(n) == [j \in 1..n |-> SumTo([i \in 1..n |-> i * AliasA(n, i, j)], n)]
+AliasCases ==
+  \E w \in {"Self", "Slice", "ConstSlice"}, n \in 1..DMax :
+     \/ c = CV("MdotV.alias." \o w, <<n>>, <<>>, <<>>, "any", <<n>>, MdotVAlias(n))
+     \/ c = CV("VdotM.alias." \o w, <<n>>, <<>>, <<>>, "any", <<n>>, VdotMAlias(n))
+
 (* Permute(pi): pi must have one entry per element, each entry an index.   *)
 (* The library applies pi as an interchange sequence, so a non-bijective   *)
 (* pi is not excluded by the sources ("any").  Enumerated: all pi of       *)
@@ -339,7 +357,7 @@ InSituCases ==
               IF wn = n THEN "ok" ELSE "any", IF x[2] \in {"T4", "T1", "B"} THEN (IF x[1] \in {"newtonRoot", "newtonMin"} THEN <<n>> ELSE <<n, n>>) ELSE <<n>>)
 
 (* -------------------------------------------------------------- output *)
-Init == VectorCases \/ MatrixCases \/ PermuteCases \/ RealCases \/ ShrinkCases \/ AlgoCases \/ OptionCases \/ InSituCases
+Init == VectorCases \/ AliasCases \/ MatrixCases \/ PermuteCases \/ RealCases \/ ShrinkCases \/ AlgoCases \/ OptionCases \/ InSituCases
 Next == UNCHANGED c
 Spec == Init /\ [][Next]_c
 
